@@ -235,6 +235,14 @@ def unaryop(it, op, v, node):
     if op == "Not":
         t = it.truth(v)
         if t is None:
+            if isinstance(v, VNum) and v.term is not None:
+                at = v.term.single_atom()
+                if v.kind == "bool" and at is not None and isinstance(at, T.App) and at.op.startswith("cmp_"):
+                    neg = {"Eq": "NotEq", "NotEq": "Eq", "Lt": "GtE", "GtE": "Lt", "Gt": "LtE", "LtE": "Gt"}.get(at.op[4:])
+                    if neg:
+                        return VNum("bool", T.app("cmp_" + neg, *at.args))
+                if v.kind != "bool":
+                    return VNum("bool", T.app("cmp_Eq", v.term, T.ZERO))  # not x  ==  (x == 0)
             u = VUnknown("not", "bool")
             u.neg_of = v
             return u
